@@ -96,12 +96,6 @@ theorem request {n : Nat} (h : n ≤ B) : Spec S B (TM.request n) (fun _ => True
   show max st.alloc n ≤ B
   exact Nat.max_le.mpr ⟨h', h⟩
 
-theorem requestBig (n : Nat) : Spec S B (TM.requestBig n) (fun _ => True) := by
-  intro st; exact ⟨fun h => h, trivial⟩
-
-theorem enter (n : Nat) : Spec S B (TM.enter n) (fun _ => True) := by
-  intro st; exact ⟨fun h => h, trivial⟩
-
 theorem addU8_mem {site a b : Nat} (h : site ∈ S) : Spec S B (addU8 site a b) (fun r => r = a + b ∧ r ≤ 255) := by
   unfold addU8; split
   · exact ret _ ⟨rfl, by assumption⟩
@@ -140,28 +134,22 @@ theorem u32 (s : Bytes) : Spec S B (Total.u32 s) (fun r => s.length = r.2.length
     omega
   · exact fail
 
-theorem takeVec {n : Nat} (s : Bytes) (h : n ≤ B) : Spec S B (Total.takeVec n s) (fun r => r.1.length = n) := by
+theorem takeVec {n : Nat} (s : Bytes) (h : n ≤ B ∨ s.length ≤ B) :
+    Spec S B (Total.takeVec n s) (fun r => r.1.length = n ∧ r.2.length ≤ s.length) := by
   unfold Total.takeVec
-  refine bind (request h) (fun _ _ => ?_)
+  refine bind (request (by rcases h with h | h <;> omega)) (fun _ _ => ?_)
   split
   · exact fail
-  · refine ret _ ?_
-    simp only [List.length_take]
-    omega
+  · refine ret _ ⟨?_, ?_⟩
+    · simp only [List.length_take]; omega
+    · simp only [List.length_drop]; omega
 
-theorem takeVecBig (n : Nat) (s : Bytes) : Spec S B (Total.takeVecBig n s) (fun _ => True) := by
-  unfold Total.takeVecBig
-  refine bind (requestBig n) (fun _ _ => ?_)
-  split
-  · exact fail
-  · exact ret _ trivial
-
-theorem loopN {body : Rd Unit} (h : ∀ s, Spec S B (body s) (fun _ => True)) :
-    ∀ n s, Spec S B (Total.loopN body n s) (fun _ => True)
-  | 0, s => ret _ trivial
+theorem loopN {body : Rd Unit} (h : ∀ s, Spec S B (body s) (fun r => r.2.length ≤ s.length)) :
+    ∀ n s, Spec S B (Total.loopN body n s) (fun r => r.2.length ≤ s.length)
+  | 0, s => ret _ (Nat.le_refl _)
   | n + 1, s => by
     unfold Total.loopN
-    exact bind (h s) (fun ⟨_, s'⟩ _ => loopN h n s')
+    exact bind (h s) (fun ⟨_, s'⟩ h1 => weaken (loopN h n s') (fun r hr => Nat.le_trans hr h1))
 
 theorem strSliceFrom_true {site : Nat} {l : List Nat} {n : Nat} (h : isCharBoundary l n = true) :
     Spec S B (Total.strSliceFrom site l n) (fun _ => True) :=
@@ -200,10 +188,6 @@ theorem bnd_apply {α β : Type} (m : TM α) (f : α → TM β) (st : Acct) :
 theorem ret_apply {α : Type} (a : α) (st : Acct) : (Pure.pure a : TM α) st = (.ok a, st) := rfl
 theorem fail_apply {α : Type} (st : Acct) : (TM.fail : TM α) st = (.err, st) := rfl
 theorem crash_apply {α : Type} (s : Nat) (st : Acct) : (TM.crash s : TM α) st = (.panic s, st) := rfl
-theorem enter_apply (d : Nat) (st : Acct) : TM.enter d st = (.ok (), { st with depth := max st.depth d }) := rfl
-theorem request_apply (d : Nat) (st : Acct) : TM.request d st = (.ok (), { st with alloc := max st.alloc d }) := rfl
-theorem requestBig_apply (d : Nat) (st : Acct) : TM.requestBig d st = (.ok (), { st with big := max st.big d }) := rfl
-
 /-- a panic of the first computation is the panic of the sequence -/
 theorem bind_panic {α β : Type} {m : TM α} {f : α → TM β} {st : Acct} {s : Nat} (h : (m st).1 = .panic s) :
     ((m >>= f) st).1 = .panic s := by
@@ -237,13 +221,10 @@ macro_rules | `(tactic| pin_lemma) => `(tactic| assumption)
 macro_rules | `(tactic| pin_lemma) => `(tactic| (with_reducible refine Spec.ret _ ?_) <;> try trivial)
 macro_rules | `(tactic| pin_lemma) => `(tactic| with_reducible exact Spec.fail)
 macro_rules | `(tactic| pin_lemma) => `(tactic| with_reducible exact Spec.guard _)
-macro_rules | `(tactic| pin_lemma) => `(tactic| with_reducible exact Spec.requestBig _)
-macro_rules | `(tactic| pin_lemma) => `(tactic| with_reducible exact Spec.enter _)
 macro_rules | `(tactic| pin_lemma) => `(tactic| with_reducible exact Spec.ofOption _)
 macro_rules | `(tactic| pin_lemma) => `(tactic| with_reducible exact Spec.u8 _)
 macro_rules | `(tactic| pin_lemma) => `(tactic| with_reducible exact Spec.u16 _)
 macro_rules | `(tactic| pin_lemma) => `(tactic| with_reducible exact Spec.u32 _)
-macro_rules | `(tactic| pin_lemma) => `(tactic| with_reducible exact Spec.takeVecBig _ _)
 macro_rules | `(tactic| pin_lemma) => `(tactic| (with_reducible refine Spec.check_mem _ ?_) <;> decide)
 macro_rules | `(tactic| pin_lemma) => `(tactic| (with_reducible refine Spec.addU16_mem ?_) <;> decide)
 macro_rules | `(tactic| pin_lemma) => `(tactic| (with_reducible refine Spec.addU8_mem ?_) <;> decide)
